@@ -26,7 +26,7 @@ def main():
     src = a.src or "/tmp/seed-%s/out/%s" % (pid, a.k)
     dest = os.path.join(ROOT, "seeded", "%s-%s" % (pid, a.k))
     os.makedirs(dest, exist_ok=True)
-    for f in os.listdir(src):
+    for f in (os.listdir(src) if os.path.isdir(src) else []):
         if f == "meta.json" and os.path.exists(os.path.join(dest, f)):
             continue  # keep the recorded confirmation
         if f == "patch.diff" and os.path.exists(os.path.join(dest, "patch.orig.diff")):
